@@ -42,11 +42,14 @@ IsNone(x) == x = None
 ExistsErr == [exists |-> TRUE]
 AMOUNT == 1000000
 RATE == 10000
+RateFor(p) == IF cf.peerrate # 0 /\ p = "peer" THEN cf.peerrate ELSE RATE     \* a peer-specific rate overrides the global one for that peer only (premium.Setting.GetRate)
+EffRate == RateFor("peer")
 OPENFEE == 1000
 Cfg == [chain |-> CHAIN, allow_new |-> TRUE, accept_all |-> cf.acceptall, allow_peer |-> FALSE, suspect_peer |-> FALSE,
-        min_swap_msat |-> cf.minmsat, btc_enabled |-> TRUE, lbtc_enabled |-> TRUE, rate_ppm |-> RATE, has_peer_rate |-> FALSE,
-        peer_rate |-> 0, wallet_sat |-> 100000000, open_fee_sat |-> OPENFEE, spendable_msat |-> 2000000000,
-        receivable_msat |-> 2000000000, dup_pay |-> "cln", swap_vout |-> 0]
+        min_swap_msat |-> cf.minmsat, btc_enabled |-> ~(cf.onlyown /\ CHAIN = "lbtc"), lbtc_enabled |-> ~(cf.onlyown /\ CHAIN = "btc"), rate_ppm |-> RATE, has_peer_rate |-> cf.peerrate # 0,
+        peer_rate |-> cf.peerrate, wallet_sat |-> IF cf.funds = "tight" THEN 1000999 ELSE 100000000, open_fee_sat |-> OPENFEE,
+        spendable_msat |-> IF cf.funds = "tight" THEN 999999999 ELSE 2000000000,
+        receivable_msat |-> IF cf.funds = "tight" THEN 999999999 ELSE 2000000000, dup_pay |-> cf.duppay, swap_vout |-> cf.vout]
 
 (* ---------------------------------------------------------------- data -- *)
 NewData(role, peer, sid) ==
@@ -154,6 +157,7 @@ WindowOK(d, tip) == d.start_set /\ tip >= d.start /\ tip < d.start + WindowOf(d)
 ActCheckRequest(x) ==
   LET d == D(x)  r == Req(d) IN
   IF ~o.allowNew THEN Fail(x, "swaps are disabled")
+  ELSE IF (r.chain = "lbtc" /\ ~Cfg.lbtc_enabled) \/ (r.chain = "btc" /\ ~Cfg.btc_enabled) THEN Fail(x, "swaps on this chain are not supported")
   ELSE IF r.ver # 7 THEN Fail(x, "incompatible peerswap version")
   ELSE IF r.amount * 1000 < Cfg.min_swap_msat THEN Fail(x, "minimum swap amount")
   ELSE IF r.assetcls # "own" THEN Fail(x, "invalid asset or network")
@@ -170,7 +174,7 @@ ActSwapInReceiverInit(x) ==
   LET a == SetAnchor(x) IN
   IF a.crashed THEN a ELSE IF a.go # "" THEN Fail(a, "height") ELSE
   LET d == D(a)
-      prem == Compute(DAmount(d), RATE)
+      prem == Compute(DAmount(d), RateFor(d.peer))
       d2 == [d EXCEPT !.in_agr = [premium |-> prem, pub |-> "good"],
                       !.next = [kind |-> "swap_in_agreement", c |-> [premium |-> prem]]]
   IN Succ(ArmTimer(SetD(a, d2)))
@@ -181,7 +185,7 @@ ActCreateSwapOutFromRequest(x) ==
   IF Cfg.wallet_sat < DAmount(D(g2)) + OPENFEE THEN Fail(g2, "insufficient walletbalance") ELSE
   LET g3 == Gate(g2, "ln.invoice") IN IF g3.crashed THEN g3 ELSE IF g3.go # "" THEN Fail(g3, "invoice") ELSE
   LET d == D(g3)
-      prem == Compute(DAmount(d), RATE)
+      prem == Compute(DAmount(d), RateFor(d.peer))
       d2 == [d EXCEPT !.out_agr = [premium |-> prem, pub |-> "good", feemsat |-> OPENFEE * 1000, feehash |-> "hF-" \o d.sid, feepayee |-> "me"],
                       !.next = [kind |-> "swap_out_agreement", c |-> [premium |-> prem, fee_msat |-> OPENFEE * 1000, fee_hash |-> "hF-" \o d.sid]]]
   IN Succ(ArmTimer(After(SetD(g3, d2), "ln.invoice")))
@@ -244,13 +248,13 @@ ActCreateAndBroadcastOpening(x) ==
   LET k == Get(g2.nd.opens, d.sid, 0) + 1
       tx == "txM-" \o d.sid \o "-" \o ToString(k)
       hash == "hC-" \o d.sid \o "-" \o ToString(k)
-      e == [ev |-> "wallet.open", sid |-> d.sid, chain |-> DChain(d), tx |-> tx, vout |-> 0, amount |-> DOpenSat(d), csv |-> CsvOf(d), hash |-> hash]
+      e == [ev |-> "wallet.open", sid |-> d.sid, chain |-> DChain(d), tx |-> tx, vout |-> cf.vout, amount |-> DOpenSat(d), csv |-> CsvOf(d), hash |-> hash]
       g3 == After([Emit(g2, e) EXCEPT !.nd.opens = Put(@, d.sid, k)], "wallet.open")
   IN IF g3.crashed THEN g3 ELSE
   LET g4 == Gate(g3, "wallet.label") IN IF g4.crashed THEN g4 ELSE
   LET inv == [hash |-> hash, msat |-> DClaimSat(d) * 1000, cltv |-> InvCltvOf(d), payee |-> "me", expiry |-> IF DChain(d) = "btc" THEN 86400 ELSE 3600]
-      otb == [tx |-> tx, vout |-> 0, inv |-> inv, blind |-> IF DChain(d) = "lbtc" THEN "good" ELSE ""]
-      c == [tx |-> tx, vout |-> 0, blind |-> DChain(d) = "lbtc", inv_msat |-> inv.msat, inv_hash |-> hash, inv_cltv |-> inv.cltv, inv_expiry |-> inv.expiry]
+      otb == [tx |-> tx, vout |-> cf.vout, inv |-> inv, blind |-> IF DChain(d) = "lbtc" THEN "good" ELSE ""]
+      c == [tx |-> tx, vout |-> cf.vout, blind |-> DChain(d) = "lbtc", inv_msat |-> inv.msat, inv_hash |-> hash, inv_cltv |-> inv.cltv, inv_expiry |-> inv.expiry]
       d2 == [D(g4) EXCEPT !.start = Tip(g4, DChain(d)), !.start_set = IF V7Liquid(d) THEN TRUE ELSE @, !.txhex = tx, !.otb = otb,
                           !.next = [kind |-> "opening_tx_broadcasted", c |-> c]]
   IN Succ(SetD(g4, d2))
@@ -324,7 +328,8 @@ PayLoop(x, k) ==
   LET g2 == Gate(g1, "ln.payclaim") IN IF g2.crashed THEN g2 ELSE
   LET st == PayStatus(g2, d.sid)
       inv == d.otb.inv
-  IN IF st = "succeeded" THEN Succ(SetD(g2, [d EXCEPT !.preimage = TRUE]))
+  IN IF st = "succeeded" THEN (IF cf.duppay = "lnd" THEN PayLoop(g2, k + 1)      \* lnd refuses to pay an invoice twice ("invoice is already paid"); lightningd returns the completed payment
+                                ELSE Succ(SetD(g2, [d EXCEPT !.preimage = TRUE])))
      ELSE IF st = "inflight" THEN PayLoop(g2, k + 1)
      ELSE IF MaxDeltaOf(d) # 0 /\ (inv.cltv < 0 \/ inv.cltv + 1 > MaxDeltaOf(d)) THEN PayLoop(g2, k + 1)
      ELSE
@@ -471,7 +476,7 @@ BumpKey(x) == [x EXCEPT !.nd.keyn = @ + 1]
 
 OnRequest(x, c, from, sid) ==
   LET amt == c.req.amount
-      prem == Compute(amt, RATE)
+      prem == Compute(amt, RateFor(from))
       cancel(y) == [SendCancelRaw(y, from, sid, TRUE) EXCEPT !.res = "err:other"]
   IN
   IF sid \in x.nd.reg \/ sid \in DOMAIN x.nd.disk THEN cancel(x) ELSE     \* a known swap id is never reused
@@ -502,7 +507,9 @@ LocalInit(x, a, scid, sid, limppm) ==
   ELSE
   LET g1 == Gate(x, "ln.canspend") IN IF g1.crashed THEN g1 ELSE IF g1.go # "" THEN [g1 EXCEPT !.res = "err:other"] ELSE
   LET g2 == Gate(g1, IF a = "swapout" THEN "ln.spendable" ELSE "ln.receivable") IN IF g2.crashed THEN g2 ELSE IF g2.go # "" THEN [g2 EXCEPT !.res = "err:other"] ELSE
+  IF (IF a = "swapout" THEN Cfg.spendable_msat ELSE Cfg.receivable_msat) < AMOUNT * 1000 THEN [g2 EXCEPT !.res = "err:other"] ELSE     \* exceeding spendable / receivable amount
   LET g3 == IF a = "swapin" THEN Gate(Gate(g2, "wallet.balance"), "wallet.fee") ELSE g2 IN IF g3.crashed THEN g3 ELSE IF g3.go # "" THEN [g3 EXCEPT !.res = "err:other"] ELSE
+  IF a = "swapin" /\ AMOUNT > Cfg.wallet_sat - OPENFEE THEN [g3 EXCEPT !.res = "err:other"] ELSE     \* exceeding maximum swap amount (on-chain balance minus the opening fee)
   IF LockConflictFor(g3, sid, scid) THEN [g3 EXCEPT !.res = "err:active_swap"] ELSE
   LET role == IF a = "swapout" THEN "out_sender" ELSE "in_sender"
       l == Lock(BumpKey(g3), sid, Fresh(g3, role, "peer", sid))
@@ -549,8 +556,8 @@ GoodOut == [amt |-> "exact", script |-> "good", asset |-> "policy", blind |-> "o
 ChangeOut == [amt |-> "other", script |-> "p2wpkh", asset |-> "policy", blind |-> "ok"]
 OutGood(oo) == oo.amt = "exact" /\ oo.script = "good" /\ oo.asset = "policy" /\ oo.blind = "ok"
 AmtOf(c) == IF c = "belowmin" THEN 99999 ELSE IF c = "min" THEN 100000 ELSE AMOUNT
-LimitOf(c, amt) == CASE c \in {"", "ok"} -> amt [] c = "zero" -> 0 [] c = "neg" -> -1 [] c = "exact" -> Compute(amt, RATE)
-                     [] c = "low" -> Compute(amt, RATE) - 1 [] OTHER -> amt
+LimitOf(c, amt) == CASE c \in {"", "ok"} -> amt [] c = "zero" -> 0 [] c = "neg" -> -1 [] c = "exact" -> Compute(amt, EffRate)
+                     [] c = "low" -> Compute(amt, EffRate) - 1 [] OTHER -> amt
 \* "huge" stands for a premium near MaxInt64 (the harness sends MaxInt64; TLC integers are 32-bit, the model only needs "far above any limit")
 PremOf(c, amt, lim) == CASE c \in {"", "zero"} -> 0 [] c = "small" -> 100 [] c = "limit" -> lim [] c = "over" -> lim + 1 [] c = "neg" -> -1000
                          [] c = "huge" -> 1000000000 [] OTHER -> 0
@@ -632,6 +639,8 @@ AdvNewReqs ==
   \cup {[BlankMsg EXCEPT !.kind = k, !.amt = "belowmin"] : k \in (INITS \cap ReqKinds)}
   \cup {[BlankMsg EXCEPT !.kind = k, !.amt = "min"] : k \in (INITS \cap ReqKinds)}
   \cup {[BlankMsg EXCEPT !.kind = k, !.from = "third"] : k \in (INITS \cap ReqKinds)}
+  \* a request for the chain this node has switched off (only then: the model follows one chain)
+  \cup (IF cf.onlyown THEN {[BlankMsg EXCEPT !.kind = k, !.chain = IF CHAIN = "btc" THEN "lbtc" ELSE "btc"] : k \in (INITS \cap ReqKinds)} ELSE {})
 MsgMenu(n) ==
   UNION {PeerMsgs(n, s) : s \in Labels(n)}
   \cup (IF n.nswaps < MAXSWAPS THEN NewReqs ELSE {})
